@@ -146,10 +146,11 @@ class Probe:
     in_set: Any = None
     in_dict: Any = None
     desc: str = ""
+    invalid: bool = False     # a length mutant whose derived attributes (shape, dtype, axes) no longer compute
 
     @property
     def compound(self) -> bool:
-        return "+" in self.row
+        return "+" in self.row or self.invalid
 
     def replay(self) -> dict:
         return {"probe": {"spec": self.spec, "field": self.dcfield, "variant": self.variant,
@@ -206,8 +207,127 @@ def reorder_variants(base):
             yield f.name, constantdict(reversed(list(v.items())))
 
 
+def _different_like(e):
+    """a value of the type of `e` that differs from it (None: no recipe)"""
+    import pytato as pt
+    from pytato.array import (
+        Array, Axis, EinsumElementwiseAxis, EinsumReductionAxis, NormalizedSlice, ReductionDescriptor)
+    if isinstance(e, Array):
+        return pt.make_placeholder("len_extra", e.shape, e.dtype)
+    if isinstance(e, bool):
+        return not e
+    if isinstance(e, (int, np.integer)):
+        return int(e) + 1
+    if isinstance(e, float):
+        return e + 1.0
+    if isinstance(e, str):
+        return e + "_x"
+    if isinstance(e, Axis):
+        return Axis(frozenset(e.tags ^ {kinds.VBarTag()}))
+    if isinstance(e, ReductionDescriptor):
+        return ReductionDescriptor(frozenset(e.tags ^ {kinds.VBarTag()}))
+    if isinstance(e, NormalizedSlice):
+        return NormalizedSlice(0, 1, 1) if e != NormalizedSlice(0, 1, 1) else NormalizedSlice(0, 2, 1)
+    if isinstance(e, EinsumElementwiseAxis):
+        return EinsumElementwiseAxis(e.dim + 7)
+    if isinstance(e, EinsumReductionAxis):
+        return EinsumReductionAxis(e.dim + 7)
+    if isinstance(e, tuple):
+        return (*e, e[-1]) if e else (0,)
+    from pytools.tag import Tag
+    if isinstance(e, Tag):
+        return kinds.VBarTag() if not isinstance(e, kinds.VBarTag) else kinds.VFooTag()
+    return None
+
+
+def _container_length_variants(v):
+    """[(label, value of another LENGTH)] for a tuple / non-node mapping / frozenset"""
+    from constantdict import constantdict
+    out = []
+    if isinstance(v, tuple):
+        if len(v) >= 1:
+            out.append(("proper prefix (last element dropped)", v[:-1]))
+            out.append(("extended by an equal element", (*v, v[-1])))
+            d = _different_like(v[-1])
+            if d is not None:
+                out.append(("extended by a different element", (*v, d)))
+            if isinstance(v[0], tuple):
+                out.append(("first element shortened", (v[0][:-1], *v[1:])) if v[0] else
+                           ("first element extended", ((0,), *v[1:])))
+                if v[0]:
+                    out.append(("first element extended by an equal entry", ((*v[0], v[0][-1]), *v[1:])))
+        if len(v) >= 2:
+            out.append(("first element dropped", v[1:]))
+            out.append(("empty instead of non-empty", ()))
+        if len(v) == 0:
+            out.append(("non-empty instead of empty", (0,)))
+    elif isinstance(v, Mapping) and not eqterm._is_node(v):
+        items = list(v.items())
+        if items:
+            out.append(("last entry dropped", constantdict(items[:-1])))
+            k, x = items[-1]
+            nk = (k + "_zz") if isinstance(k, str) else None
+            if nk is None:
+                nk = _different_like(k)
+            if nk is not None and nk not in v:
+                out.append(("extended by an entry with an equal value", constantdict([*items, (nk, x)])))
+                d = _different_like(x)
+                if d is not None:
+                    out.append(("extended by an entry with a different value", constantdict([*items, (nk, d)])))
+        if len(items) >= 2:
+            out.append(("empty instead of non-empty", constantdict()))
+    elif isinstance(v, frozenset):
+        els = sorted(v, key=repr)
+        if els:
+            out.append(("one element dropped", frozenset(els[:-1])))
+            d = _different_like(els[-1])
+            if d is not None and d not in v:
+                out.append(("one element added", frozenset([*els, d])))
+        else:
+            out.append(("non-empty instead of empty", frozenset({kinds.VBarTag()})))
+    return out
+
+
+def length_variants(base) -> list[tuple[str, str, Any]]:
+    """[(dataclass field, label, value)]: the variadic fields of `base` (tuples, mappings, sets — also inside
+    a sparse matrix / a held send) with another LENGTH: proper prefix, extension by an equal / a different
+    element, empty vs non-empty.  A comparer that zips without a length check calls such pairs equal."""
+    from pytato.array import SparseMatrix
+    from pytato.distributed.nodes import DistributedSend
+    out = []
+    for f in dataclasses.fields(base):
+        v = getattr(base, f.name)
+        for lbl, nv in _container_length_variants(v):
+            out.append((f.name, lbl, nv))
+        if isinstance(v, (SparseMatrix, DistributedSend)) and dataclasses.is_dataclass(v):
+            for g in dataclasses.fields(v):
+                for lbl, nv in _container_length_variants(getattr(v, g.name)):
+                    try:
+                        out.append((f.name, f"{g.name}: {lbl}", dataclasses.replace(v, **{g.name: nv})))
+                    except Exception:   # noqa: BLE001
+                        pass
+    return out
+
+
+def _still_valid(node) -> bool:
+    """do the derived attributes of a mutated node still compute and agree (rank = number of axes)?"""
+    from pytato.array import Array
+    if not isinstance(node, Array):
+        return True
+    try:
+        shape = node.shape
+        node.dtype   # noqa: B018
+        return len(node.axes) == len(shape)
+    except Exception:   # noqa: BLE001
+        return False
+
+
 def build_pair(specs, spec_name: str, dcfield: str, variant):
     sp = specs[spec_name]
+    if isinstance(variant, str) and variant.startswith("len:"):
+        lv = [x for x in length_variants(sp.base) if x[0] == dcfield]
+        _, _, val = lv[int(variant[4:])]
+        return sp.base, kinds.mutate(sp.base, dcfield, val)
     if variant == "order":
         for f, val in reorder_variants(sp.base):
             if f == dcfield:
@@ -282,6 +402,26 @@ def probe_all(specs=None, with_loopy=True) -> tuple[list[Probe], dict]:
                     except Exception as e:
                         info["problems"].append(f"public-attempt:{kind}.{row}:{type(e).__name__}")
                         reachable[(kind, row)] = True
+        per_field: dict[str, int] = {}
+        for dcf, lbl, val in length_variants(base):
+            li = per_field.get(dcf, 0)
+            per_field[dcf] = li + 1
+            try:
+                mut = kinds.mutate(base, dcf, val)
+            except Exception:   # noqa: BLE001   (a constructor that validates the length: nothing to compare)
+                info.setdefault("length_rejected", []).append(f"{sname}.{dcf}: {lbl}")
+                continue
+            try:
+                d = diff_rows(base, mut)
+            except Exception:   # noqa: BLE001   (field skeleton changed)
+                d = [dcf]
+            if not d:
+                info["problems"].append(f"length-mutant-unchanged:{sname}.{dcf}:{lbl}")
+                continue
+            p = Probe(kind, sname, dcf, f"len:{li}", "+".join(d), desc=f"{sname}: {dcf} -> {lbl}",
+                      invalid=not _still_valid(mut))
+            observe(p, base, mut, keyb)
+            probes.append(p)
         for dcf, val in reorder_variants(base):
             mut = kinds.mutate(base, dcf, val)
             d = diff_rows(base, mut)
